@@ -49,8 +49,8 @@ class MatrixProduct:
 
         mp.qn = []
         for i in range(nsites+1):
-            subqn = npload[f"subqn_{i}"].astype(int).tolist()
-            mp.qn.append(subqn)
+            # keep the quantum numbers as arrays like everywhere else (`Mpo.apply` etc. rely on it)
+            mp.qn.append(npload[f"subqn_{i}"].astype(int))
 
         mp.qnidx = int(npload["qnidx"])
         mp.qntot = npload["qntot"].astype(int)
